@@ -75,7 +75,7 @@ IsInternalKey(k) == HasKey(g, k) /\ ~IsLeaf(g, N(k))
 NonSeedKey(k) == HasKey(g, k) /\ g.par[N(k)] # 0
 
 ReseedAt(k, ub, su, cb) == O3(ub, su, cb) /\ IsInternalKey(k) /\
-    Do("ReseedAt", [Call0("ReseedAt") EXCEPT !.x = k, !.ub = ub, !.su = su, !.cb = cb], OpReseedAt(g, N(k), su, cb), ub)
+    Do("ReseedAt", [Call0("ReseedAt") EXCEPT !.x = k, !.ub = ub, !.su = su, !.cb = cb], OpReseedAt(g, N(k), ub, su, cb), ub)
 RerootAtNode(k, ub, su, cb) == O3(ub, su, cb) /\ IsInternalKey(k) /\
     Do("RerootAtNode", [Call0("RerootAtNode") EXCEPT !.x = k, !.ub = ub, !.su = su, !.cb = cb], OpRerootAtNode(g, N(k), su), ub)
 RerootAtEdge(k, lp, ub, su) == O2(ub, su) /\ NonSeedKey(k) /\
@@ -84,7 +84,7 @@ RerootAtEdge(k, lp, ub, su) == O2(ub, su) /\ NonSeedKey(k) /\
 RerootAtMidpoint(ub, su, cb) == O3(ub, su, cb) /\ MidpointOk(g) /\ MidpointExact(g) /\
     Do("RerootAtMidpoint", [Call0("RerootAtMidpoint") EXCEPT !.ub = ub, !.su = su, !.cb = cb], OpRerootAtMidpoint(g, su), ub)
 ToOutgroupPosition(k, ub, su) == O2(ub, su) /\ NonSeedKey(k) /\
-    Do("ToOutgroupPosition", [Call0("ToOutgroupPosition") EXCEPT !.x = k, !.ub = ub, !.su = su], OpToOutgroupPosition(g, N(k), su), ub)
+    Do("ToOutgroupPosition", [Call0("ToOutgroupPosition") EXCEPT !.x = k, !.ub = ub, !.su = su], OpToOutgroupPosition(g, N(k), ub, su), ub)
 Deroot == "Deroot" \in Fam /\ Do("Deroot", Call0("Deroot"), OpCollapseBasalBifurcation(g, TRUE), FALSE)
 CollapseBasalBifurcation(f) == "CollapseBasalBifurcation" \in Fam /\
     Do("CollapseBasalBifurcation", [Call0("CollapseBasalBifurcation") EXCEPT !.f = f], OpCollapseBasalBifurcation(g, f), FALSE)
